@@ -355,6 +355,7 @@ class Ctx:
             n += 1
         rec = dict(rec)
         rec['property'] = self.pid
+        rec.setdefault('seed', self.seed); rec.setdefault('tier', self.tier)
         rec['reproduce'] = './check %s --replay %s' % (self.pid, os.path.relpath(p, VERIF))
         with open(p, 'w') as f: json.dump(rec, f, indent=1, default=str)
         return p
